@@ -311,7 +311,15 @@ class Engine(Core, Expr, Calls, Builtins, Stmts):
         return {'key': con.key, 'paths': 0, 'returns': 0, 'raises': 0, 'exec_s': time.time() - t0, 'lines': (0, 0), 'sha': ''}
 
     # ------------------------------------------------------------------
-    def solve(self, ob: Obligation, timeout_ms=10000):
+    def solve(self, ob: Obligation, timeout_ms=10000, second_ms=20000, cross=False):
+        """Discharge one obligation.  Verdicts:
+        discharged  - unsat of pc & not goal
+        refuted     - sat (counter-model attached)
+        unproved    - the solver gave up for a reason other than time (incomplete quantifiers / arrays):
+                      the proof fails, a candidate model may be attached
+        undecided   - timeout in every back end
+        Back ends: z3 (python API, z3-solver wheel) first; the Debian /usr/bin/z3 (an older, independent
+        build) takes what the first leaves open, and re-checks every unsat when cross=True."""
         t0 = time.time()
         g = z3.simplify(ob.goal) if z3.is_expr(ob.goal) else ob.goal
         if z3.is_true(g):
@@ -325,18 +333,65 @@ class Engine(Core, Expr, Calls, Builtins, Stmts):
             s.add(f)
         s.add(z3.Not(ob.goal))
         r = s.check()
-        ob.time_s = time.time() - t0
-        ob.backend = 'z3 ' + z3.get_version_string()
+        ob.backend = 'z3-' + z3.get_version_string()
         if r == z3.unsat:
             ob.verdict = 'discharged'
+            if cross:
+                r2, why2 = self.second_backend(s, second_ms)
+                ob.backend += f'+z3cli({r2})'
+                if r2 == 'sat':
+                    ob.verdict, ob.reason = 'backend-disagreement', 'z3 python API says unsat, /usr/bin/z3 says sat'
         elif r == z3.sat:
             ob.verdict = 'refuted'
             ob.model = self.model_summary(s.model(), ob)
         else:
-            ob.verdict = 'undecided'
-            ob.reason = s.reason_unknown()
-            # second attempt: drop quantified hypotheses that are not needed for a counter-model? keep honest: undecided
+            why = s.reason_unknown()
+            ob.reason = why
+            try:
+                ob.model = self.model_summary(s.model(), ob)
+            except Exception:
+                pass
+            r2, why2 = self.second_backend(s, second_ms) if second_ms else ('skipped', '')
+            ob.backend += f'+z3cli({r2})'
+            if r2 == 'unsat':
+                ob.verdict = 'discharged'
+            elif r2 == 'sat':
+                ob.verdict = 'refuted'
+                ob.reason = f'{why}; /usr/bin/z3: sat'
+            elif 'timeout' in why or 'canceled' in why:
+                ob.verdict = 'undecided' if ('timeout' in why2 or r2 in ('timeout', 'skipped')) else 'unproved'
+                ob.reason = f'{why}; /usr/bin/z3: {r2} {why2}'
+            else:
+                ob.verdict = 'unproved'
+                ob.reason = f'{why}; /usr/bin/z3: {r2} {why2}'
+        ob.time_s = time.time() - t0
         return ob
+
+    def second_backend(self, solver, ms):
+        import subprocess
+        import tempfile
+        z3cli = '/usr/bin/z3'
+        if not os.path.exists(z3cli):
+            return 'skipped', 'no /usr/bin/z3'
+        try:
+            with tempfile.NamedTemporaryFile('w', suffix='.smt2', delete=False) as f:
+                f.write(solver.to_smt2())
+                path = f.name
+            try:
+                p = subprocess.run([z3cli, f'-T:{max(1, ms // 1000)}', path], capture_output=True, text=True, timeout=ms / 1000 + 10)
+                out = (p.stdout or '').strip().splitlines()
+                first = out[0].strip() if out else ''
+                if first in ('sat', 'unsat'):
+                    return first, ''
+                if first == 'timeout':
+                    return 'timeout', 'timeout'
+                return 'unknown', ' '.join(out)[:200]
+            finally:
+                os.unlink(path)
+        except subprocess.TimeoutExpired:
+            return 'timeout', 'timeout'
+        except Exception as e:   # a crashing back end decides nothing
+            return 'error', str(e)[:200]
 
     def model_summary(self, m, ob: Obligation) -> str:
         lines = []
